@@ -7,6 +7,18 @@ HERE = os.path.dirname(os.path.dirname(os.path.abspath(__file__)))
 
 # pid -> (category, technique, level text, level note, design ref)
 CHECKS = {
+    "C01": ("exploration",
+            "exhaustive operand-value sweep per operator and shape pair + Hypothesis-generated operator compositions, "
+            "differential against an exact Python-integer reference interpreter",
+            "For every ordered pair of operand shapes up to 3 (quick) / 4 (thorough) bits, every documented operator "
+            "is simulated on ALL operand values, observed directly in a widened target and through a variable "
+            "part-select reaching above the MSB; random typed compositions up to depth 3/5 are simulated on "
+            "exhaustive or corner input vectors. Value and reported shape are compared with an independent "
+            "reference interpreter which also asserts that the exact result fits the documented shape. "
+            "Exhaustive on small widths (where sign/width corner cases all occur), sampled beyond.",
+            "Reference semantics in vlib/refsem.py written from docs/guide.rst and the Value docstrings. "
+            "Inputs outside the documented domain (listed in the evidence assumptions) are not generated.",
+            "DESIGN.md §2, §4 C01"),
     "C10": ("exploration",
             "exhaustive enumeration of small boxes + Hypothesis property tests against a brute-force oracle",
             "Every range / (value, shape) / helper argument in a stated finite box is enumerated and compared "
